@@ -40,6 +40,10 @@ def _subjects(tier, seed):
             ("hh-b", "hh", (40 + s, 4, 16, 0.01)),
             ("hll-b", "hll", (12, 0)),
             ("hh-c", "hh", (1, 1, 1)),
+            ("hll-c", "hll", (16, 1)),
+            ("linear-c", "linear", (4000 + s, 4)),
+            ("log8-c", "log8", (9000 + s, 5, 10**6, 100)),
+            ("hh-d", "hh", (300 + s, 3, 40)),
         ]
     return subj
 
